@@ -1,0 +1,53 @@
+/*
+ * Copyright (C) 2024 Nuts community
+ *
+ * This program is free software: you can redistribute it and/or modify
+ * it under the terms of the GNU General Public License as published by
+ * the Free Software Foundation, either version 3 of the License, or
+ * (at your option) any later version.
+ *
+ * This program is distributed in the hope that it will be useful,
+ * but WITHOUT ANY WARRANTY; without even the implied warranty of
+ * MERCHANTABILITY or FITNESS FOR A PARTICULAR PURPOSE.  See the
+ * GNU General Public License for more details.
+ *
+ * You should have received a copy of the GNU General Public License
+ * along with this program.  If not, see <https://www.gnu.org/licenses/>.
+ *
+ */
+
+package resolver
+
+import (
+	"bytes"
+	"encoding/json"
+	"fmt"
+)
+
+// didDocumentKeyMembers are the members of a DID document that hold verification methods (or references to them).
+var didDocumentKeyMembers = []string{"verificationMethod", "authentication", "assertionMethod", "keyAgreement", "capabilityInvocation", "capabilityDelegation"}
+
+// RejectNullKeyEntries returns an error if the JSON DID document has a null entry in its verificationMethod array or in one of
+// its verification relationship arrays. It is meant to be called on DID documents from untrusted sources before they are unmarshalled:
+// the DID library unmarshals such an entry to a nil pointer, which it dereferences while resolving references between the members,
+// in its validators and when marshalling the document.
+// Input that is not a JSON object is not an error here, unmarshalling it will report that.
+func RejectNullKeyEntries(document []byte) error {
+	var members map[string]json.RawMessage
+	if err := json.Unmarshal(document, &members); err != nil {
+		return nil
+	}
+	for _, name := range didDocumentKeyMembers {
+		var entries []json.RawMessage
+		if err := json.Unmarshal(members[name], &entries); err != nil {
+			// absent, or not an array
+			continue
+		}
+		for _, entry := range entries {
+			if bytes.Equal(bytes.TrimSpace(entry), []byte("null")) {
+				return fmt.Errorf("invalid DID document: %s contains null", name)
+			}
+		}
+	}
+	return nil
+}
